@@ -155,7 +155,11 @@ type asmOp struct {
 	real func(e *asm.Emitter)
 	// model applies it to the model and says whether the call must be refused (panic, no change)
 	model func(m *asmModel) (refused bool)
-	// kind of refusal the model may predict, for reporting
+	// static description of the call, used to record what the REAL emitter did (observeStep):
+	kind     asmItemKind
+	text     string // label name / comment text
+	refLabel string // label referenced by a branch or absolute jump ("" = none)
+	refS8    bool   // the reference is an 8-bit relative one
 }
 
 func dataBlock(n int) []byte {
@@ -170,14 +174,14 @@ var longComment = strings.Repeat("long comment text ", 12)[:200]
 
 func asmAlphabet() []asmOp {
 	instr := func(name string, real func(e *asm.Emitter), b ...byte) asmOp {
-		return asmOp{name, real, func(m *asmModel) bool { return !m.emit(itInstr, b, -1) }}
+		return asmOp{name: name, real: real, model: func(m *asmModel) bool { return !m.emit(itInstr, b, -1) }, kind: itInstr}
 	}
 	ops := []asmOp{
 		instr("NOP", func(e *asm.Emitter) { e.NOP() }, 0xEA),
 		instr("LDA_dp($12)", func(e *asm.Emitter) { e.LDA_dp(0x12) }, 0xA5, 0x12),
 		instr("LDA_abs($1234)", func(e *asm.Emitter) { e.LDA_abs(0x1234) }, 0xAD, 0x34, 0x12),
 		instr("JSL($123456)", func(e *asm.Emitter) { e.JSL(0x123456) }, 0x22, 0x56, 0x34, 0x12),
-		{"SEP(#$20)", func(e *asm.Emitter) { e.SEP(0x20) }, func(m *asmModel) bool {
+		{name: "SEP(#$20)", real: func(e *asm.Emitter) { e.SEP(0x20) }, model: func(m *asmModel) bool {
 			if !m.fits(2) {
 				return true
 			}
@@ -185,7 +189,7 @@ func asmAlphabet() []asmOp {
 			m.emit(itInstr, []byte{0xE2, 0x20}, -1)
 			return false
 		}},
-		{"REP(#$20)", func(e *asm.Emitter) { e.REP(0x20) }, func(m *asmModel) bool {
+		{name: "REP(#$20)", real: func(e *asm.Emitter) { e.REP(0x20) }, model: func(m *asmModel) bool {
 			if !m.fits(2) {
 				return true
 			}
@@ -193,13 +197,13 @@ func asmAlphabet() []asmOp {
 			m.emit(itInstr, []byte{0xC2, 0x20}, -1)
 			return false
 		}},
-		{"LDA_imm8_b($7F)", func(e *asm.Emitter) { e.LDA_imm8_b(0x7F) }, func(m *asmModel) bool {
+		{name: "LDA_imm8_b($7F)", real: func(e *asm.Emitter) { e.LDA_imm8_b(0x7F) }, model: func(m *asmModel) bool {
 			if m.m16() {
 				return true
 			}
 			return !m.emit(itInstr, []byte{0xA9, 0x7F}, -1)
 		}},
-		{"LDA_imm16_w($1234)", func(e *asm.Emitter) { e.LDA_imm16_w(0x1234) }, func(m *asmModel) bool {
+		{name: "LDA_imm16_w($1234)", real: func(e *asm.Emitter) { e.LDA_imm16_w(0x1234) }, model: func(m *asmModel) bool {
 			if !m.m16() {
 				return true
 			}
@@ -209,24 +213,24 @@ func asmAlphabet() []asmOp {
 	for _, sym := range []string{"a", "b"} {
 		sym, l := sym, asmLabelName(sym)
 		ops = append(ops,
-			asmOp{"BNE(" + sym + ")", func(e *asm.Emitter) { e.BNE(l) }, func(m *asmModel) bool { return !m.emitRef(0xD0, true, l) }},
-			asmOp{"BRA(" + sym + ")", func(e *asm.Emitter) { e.BRA(l) }, func(m *asmModel) bool { return !m.emitRef(0x80, true, l) }},
-			asmOp{"JMP_abs(" + sym + ")", func(e *asm.Emitter) { e.JMP_abs(l) }, func(m *asmModel) bool { return !m.emitRef(0x4C, false, l) }},
+			asmOp{name: "BNE(" + sym + ")", real: func(e *asm.Emitter) { e.BNE(l) }, model: func(m *asmModel) bool { return !m.emitRef(0xD0, true, l) }, refLabel: l, refS8: true},
+			asmOp{name: "BRA(" + sym + ")", real: func(e *asm.Emitter) { e.BRA(l) }, model: func(m *asmModel) bool { return !m.emitRef(0x80, true, l) }, refLabel: l, refS8: true},
+			asmOp{name: "JMP_abs(" + sym + ")", real: func(e *asm.Emitter) { e.JMP_abs(l) }, model: func(m *asmModel) bool { return !m.emitRef(0x4C, false, l) }, refLabel: l},
 		)
 	}
 	for _, sym := range []string{"a", "b"} {
 		sym, l := sym, asmLabelName(sym)
-		ops = append(ops, asmOp{"Label(" + sym + ")", func(e *asm.Emitter) { e.Label(l) }, func(m *asmModel) bool { return !m.label(l) }})
+		ops = append(ops, asmOp{name: "Label(" + sym + ")", real: func(e *asm.Emitter) { e.Label(l) }, model: func(m *asmModel) bool { return !m.label(l) }, kind: itLabel, text: l})
 	}
 	for _, n := range []int{0, 1, 15, 16, 17, 33} {
 		n := n
-		ops = append(ops, asmOp{fmt.Sprintf("EmitBytes(%d)", n), func(e *asm.Emitter) { e.EmitBytes(dataBlock(n)) },
-			func(m *asmModel) bool { return !m.emit(itData, dataBlock(n), -1) }})
+		ops = append(ops, asmOp{name: fmt.Sprintf("EmitBytes(%d)", n), real: func(e *asm.Emitter) { e.EmitBytes(dataBlock(n)) },
+			model: func(m *asmModel) bool { return !m.emit(itData, dataBlock(n), -1) }, kind: itData})
 	}
 	for _, c := range []string{"", "short", longComment} {
 		c := c
 		nm := fmt.Sprintf("Comment(%d chars)", len(c))
-		ops = append(ops, asmOp{nm, func(e *asm.Emitter) { e.Comment(c) }, func(m *asmModel) bool { m.comment(c); return false }})
+		ops = append(ops, asmOp{name: nm, real: func(e *asm.Emitter) { e.Comment(c) }, model: func(m *asmModel) bool { m.comment(c); return false }, kind: itComment, text: c})
 	}
 	return ops
 }
@@ -358,66 +362,132 @@ func applyReal(e *asm.Emitter, op asmOp) (panicked interface{}) {
 	return nil
 }
 
+// observeStep applies one call to the REAL emitter and records in om what the emitter did: whether it
+// accepted the call, how many bytes it appended and which, at the address where those bytes really sit
+// (base + offset into Bytes()). om is therefore a description of the program the emitter itself built,
+// not a prediction: checks of listings (C15) and of Finalize (C06) judge the emitter against its own
+// earlier behaviour and stay silent about encoding, width guards, capacity and PC bookkeeping, which
+// are other properties' business (C03, C07, C19).
+func observeStep(e *asm.Emitter, om *asmModel, op asmOp) (panicked interface{}) {
+	lenBefore := e.Len()
+	if panicked = applyReal(e, op); panicked != nil {
+		return
+	}
+	om.record(op.kind, op.text, op.refLabel, op.refS8, lenBefore, e)
+	return nil
+}
+
+func (om *asmModel) record(kind asmItemKind, text, refLabel string, refS8 bool, lenBefore int, e *asm.Emitter) {
+	addr := om.base + uint32(lenBefore)
+	switch kind {
+	case itLabel:
+		if _, dup := om.labels[text]; !dup {
+			om.labels[text] = addr
+		}
+		om.items = append(om.items, asmItem{kind: itLabel, addr: addr, text: text, ref: -1})
+	case itComment:
+		om.items = append(om.items, asmItem{kind: itComment, addr: addr, text: text, ref: -1})
+	default:
+		var b []byte
+		if n := e.Len(); n >= lenBefore && n <= len(e.Bytes()) {
+			b = append(b, e.Bytes()[lenBefore:n]...)
+		}
+		ref := -1
+		want := 3
+		if refS8 {
+			want = 2
+		}
+		if refLabel != "" && len(b) == want { // a reference of another shape is an encoding matter (C03), not judged here
+			om.refs = append(om.refs, asmRef{refS8, refLabel, addr + 1})
+			ref = len(om.refs) - 1
+		}
+		om.items = append(om.items, asmItem{kind: kind, addr: addr, bytes: b, ref: ref})
+		om.bytes = append(om.bytes, b...)
+		om.pc = addr + uint32(len(b))
+	}
+}
+
+// runObserved applies ops to a fresh real emitter and returns it with the observed description.
+func runObserved(v asmVariant, capacity int, ops []asmOp) (*asm.Emitter, *asmModel) {
+	e := newRealEmitter(v, capacity)
+	om := newModelFor(v, capacity)
+	for _, op := range ops {
+		observeStep(e, om, op)
+	}
+	return e, om
+}
+
+// runObservedRefusals is runObserved that also reports which calls were refused (bit i = call #i).
+func runObservedRefusals(v asmVariant, capacity int, ops []asmOp) (*asm.Emitter, *asmModel, uint64) {
+	e := newRealEmitter(v, capacity)
+	om := newModelFor(v, capacity)
+	var refused uint64
+	for i, op := range ops {
+		if observeStep(e, om, op) != nil {
+			refused |= 1 << uint(i&63)
+		}
+	}
+	return e, om, refused
+}
+
 // observable state of a real emitter
+type asmLabelObs struct {
+	name string
+	v    uint32
+	ok   bool
+}
+
 type asmObs struct {
 	bytes  []byte
 	n      int
 	pc     uint32
+	base   uint32
 	flags  byte
-	labels map[string]uint32
+	labels []asmLabelObs // one entry per queried name, in query order
 }
 
 func observe(e *asm.Emitter, names []string) asmObs {
-	o := asmObs{n: e.Len(), pc: e.PC(), flags: byte(e.Flags()), labels: map[string]uint32{}}
+	o := asmObs{n: e.Len(), pc: e.PC(), base: e.GetBase(), flags: byte(e.Flags())}
 	if e.Cap() > 0 || e.Len() > 0 {
 		o.bytes = append([]byte(nil), e.Bytes()...)
 	}
-	for _, n := range names {
-		if v, ok := e.GetLabel(n); ok {
-			o.labels[n] = v
+	if len(names) > 0 {
+		o.labels = make([]asmLabelObs, len(names))
+		for i, n := range names {
+			v, ok := e.GetLabel(n)
+			if !ok {
+				v = 0
+			}
+			o.labels[i] = asmLabelObs{n, v, ok}
 		}
 	}
 	return o
 }
 
-func (o asmObs) equal(p asmObs) bool {
-	if !bytes.Equal(o.bytes, p.bytes) || o.n != p.n || o.pc != p.pc || o.flags != p.flags || len(o.labels) != len(p.labels) {
+func sameLabels(a, b []asmLabelObs) bool {
+	if len(a) != len(b) {
 		return false
 	}
-	for k, v := range o.labels {
-		if w, ok := p.labels[k]; !ok || w != v {
+	for i := range a {
+		if a[i] != b[i] {
 			return false
 		}
 	}
 	return true
 }
 
-func (o asmObs) String() string {
-	return fmt.Sprintf("bytes=% x len=%d pc=$%06x flags=%02x labels=%v", o.bytes, o.n, o.pc, o.flags, o.labels)
+func (o asmObs) equal(p asmObs) bool {
+	return bytes.Equal(o.bytes, p.bytes) && o.n == p.n && o.pc == p.pc && o.base == p.base && o.flags == p.flags && sameLabels(o.labels, p.labels)
 }
 
-// matchesModel compares the observable state with the model.
-func (o asmObs) matchesModel(m *asmModel) string {
-	if m.cap >= 0 && !bytes.Equal(o.bytes, m.bytes) {
-		return fmt.Sprintf("Bytes() = % x, model % x", o.bytes, m.bytes)
-	}
-	if m.cap >= 0 && o.n != len(m.bytes) {
-		return fmt.Sprintf("Len() = %d, model %d", o.n, len(m.bytes))
-	}
-	if o.pc != m.pc {
-		return fmt.Sprintf("PC() = $%06x, model $%06x", o.pc, m.pc)
-	}
-	if o.flags != m.p {
-		return fmt.Sprintf("Flags() = %02x, model %02x", o.flags, m.p)
-	}
-	for _, n := range asmLabelNames {
-		v, ok := o.labels[n]
-		w, okm := m.labels[n]
-		if ok != okm || v != w {
-			return fmt.Sprintf("GetLabel(%s) = ($%06x,%v), model ($%06x,%v)", n, v, ok, w, okm)
+func (o asmObs) String() string {
+	var l []string
+	for _, x := range o.labels {
+		if x.ok {
+			l = append(l, fmt.Sprintf("%s=$%06x", x.name, x.v))
 		}
 	}
-	return ""
+	return fmt.Sprintf("bytes=% x len=%d pc=$%06x base=$%06x flags=%02x labels=%v", o.bytes, o.n, o.pc, o.base, o.flags, l)
 }
 
 // the two labels of the alphabet: the second has the first as a prefix and is longer than the
